@@ -30,6 +30,7 @@ import (
 	"math/rand"
 	"net"
 	"net/url"
+	"os"
 	"sort"
 	"strconv"
 	"strings"
@@ -259,13 +260,18 @@ type sessEngine struct {
 	shut    bool
 }
 
+// loopIP is this process's own loopback address (all of 127.0.0.0/8 is loopback on Linux): a
+// port freed by `server-shutdown` must stay refused, not be picked up by a server of another
+// harness process running side by side.
+var loopIP = fmt.Sprintf("127.%d.%d.2", 1+(os.Getpid()>>8)%250, 1+os.Getpid()%250)
+
 // listenLoopback opens a TCP listener on an ephemeral loopback port, retrying while the box is
 // short of ephemeral ports (many harnesses run side by side).
 func listenLoopback() net.Listener {
 	var err error
 	for i := 0; i < 200; i++ {
 		var ln net.Listener
-		if ln, err = net.Listen("tcp", "127.0.0.1:0"); err == nil {
+		if ln, err = net.Listen("tcp", loopIP+":0"); err == nil {
 			return ln
 		}
 		time.Sleep(25 * time.Millisecond)
